@@ -153,6 +153,11 @@ class Report:
                 matched.append((f, known[f.key]))
             else:
                 new.append(f)
+        if not new and getattr(self, "deferred", None):
+            # a coverage hole of the analysis with no violation that explains it: the run decides nothing for that statement
+            from .loader import AnalysisError
+
+            raise AnalysisError(self.deferred[0])
         total_ob = sum(r.obligations for r in self.rules.values())
         total_dis = sum(r.discharged for r in self.rules.values())
         print(f"== {self.prop} ({self.tier}) : {len(self.rules)} rules, {total_ob} obligations, "
